@@ -76,6 +76,23 @@ def verify_contract(ex: Exec, c: api.Contract):
             ex.on_fresh(params[n])
         ex.input_syms = dict(params)
         fr.env.update(params)
+        # nested closure under its own contract (target 'outer.inner', free=[...]): the free variables it reads/rebinds
+        # (nonlocal) are extra symbolic inputs living in a synthetic enclosing frame; specs name them like parameters
+        free = list(c.opts.get("free", ())) if finfo.kind == "nested" else []
+        outer = None
+        if finfo.kind == "nested":
+            from .ty import VFunc as _VFunc
+            outer = Frame(finfo.module, None)
+            for n in free:
+                if n not in c.types:
+                    raise Unsupported(f"{c.target}: no type for free variable {n!r} in the contract")
+                outer.env[n] = c.types[n].fresh(n)
+                ex.on_fresh(outer.env[n])
+                params[n] = outer.env[n]
+            outer.env[finfo.node.name] = _VFunc(finfo, closure=outer)
+            outer.contract = c
+            fr.parent = outer
+            ex.input_syms = dict(params)
         memo = {}
         old = VRec(Rec("old"), {k: v.clone(memo) for k, v in params.items()})
         from . import effects
@@ -94,6 +111,8 @@ def verify_contract(ex: Exec, c: api.Contract):
             except ReturnSig as r:
                 ret = r.value
         except RaiseSig as rs:
+            for n in free:
+                params[n] = outer.env[n]  # current binding of the (possibly rebound) free variables
             cls = rs.exc.cls
             if not any(exc_is(cls, h) for h in c.raises):
                 ex.oblige("raises", z3.BoolVal(False), finfo.node.lineno, note=f"undeclared exception {cls} escapes",
@@ -141,6 +160,8 @@ def verify_contract(ex: Exec, c: api.Contract):
                       note="returned normally although the contract says it must raise", label="raises.must")
         if c.returns is not None:
             ret = ex.adapt_arg(ret, c.returns)
+        for n in free:
+            params[n] = outer.env[n]  # current binding of the (possibly rebound) free variables
         vals = dict(params)
         vals["old"] = old
         vals["result"] = ret
@@ -177,7 +198,7 @@ def verify_contract(ex: Exec, c: api.Contract):
                 if pushed:
                     ex.run.ctx.pop()
         diffs = []
-        for n in pnames:
+        for n in pnames + free:
             if n == "cls" and finfo.kind == "classmethod":
                 continue
             _frame_diff(ex, params[n], old.fields[n], n, c.modifies, diffs)
